@@ -362,13 +362,22 @@ type memGen struct {
 	// gate: relay sockets report their close to the reader only when released (reaper walks); order of creation
 	gate  bool
 	Order []*MemConn
+	// failNext: this many allocations fail (AllocateNoPort)
+	failNext int
 }
+
+var errNoPort = errors.New("memGen: no port to give")
 
 func (g *memGen) Validate() error { return nil }
 
 func (g *memGen) AllocatePacketConn(c turn.AllocateListenerConfig) (net.PacketConn, net.Addr, error) {
 	g.mu.Lock()
 	defer g.mu.Unlock()
+	if g.failNext > 0 { // AllocateNoPort: the generator has nothing to give
+		g.failNext--
+
+		return nil, nil, errNoPort
+	}
 	ip := g.ip4
 	if c.Network == "udp6" {
 		ip = g.ip6
@@ -1241,6 +1250,16 @@ func (w *World) do1(a map[string]any, wait func()) (obs []Obs, retry bool, err e
 			attrs = append(attrs, proto.ReservationToken([]byte(tok)))
 		}
 		w.sendFromClient(c, w.authed(u, w.curTxid, stun.MethodAllocate, attrs...))
+	case "AllocateNoPort":
+		w.curTxid = w.txid(c + "/" + a["tx"].(string))
+		w.gen.mu.Lock()
+		w.gen.failNext = 1
+		w.gen.mu.Unlock()
+		w.sendFromClient(c, w.authed(u, w.curTxid, stun.MethodAllocate, proto.RequestedTransport{Protocol: proto.ProtoUDP}))
+		wait()
+		w.gen.mu.Lock()
+		w.gen.failNext = 0
+		w.gen.mu.Unlock()
 	case "AllocateLostWrite":
 		// the server's next write toward this client fails (once): the success response is never sent
 		// (with a fresh nonce: a 438 could not be seen and repeated here)
@@ -1333,6 +1352,10 @@ func (w *World) do1(a map[string]any, wait func()) (obs []Obs, retry bool, err e
 		_ = w.Srv.Close()
 		w.down = true
 	case "BadCred":
+		if tx, _ := a["tx"].(string); tx != "" {
+			// the transaction id of the Allocate that created the allocation, once more (BadCredReplay)
+			w.curTxid = w.txid(c + "/" + tx)
+		}
 		raw, err := w.badCred(c, a["m"].(string), a["k"].(string))
 		if err != nil {
 			return nil, false, err
@@ -1637,7 +1660,12 @@ func (w *World) Project() Proj {
 			if al.AddressFamily() == proto.RequestedFamilyIPv6 {
 				cs.Fam = 6
 			}
-			cs.Relay = al.RelayAddr.String()
+			if al.RelayAddr == nil { // an allocation that never got a relay socket, registered all the same
+				cs.Relay = "<none>"
+				pr.Extra = append(pr.Extra, fmt.Sprintf("%s holds an allocation without a relayed address", c))
+			} else {
+				cs.Relay = al.RelayAddr.String()
+			}
 			for _, p := range al.ListPermissions() {
 				ua, _ := p.Addr.(*net.UDPAddr)
 				if ua == nil {
